@@ -732,6 +732,16 @@ func (t *hashTopo) errSentOnAllPaths(fi *fnInfo, errv ssa.Value) (bool, string) 
 				stored = true
 			}
 		}
+		// or it reaches the error field of a result that is sent through the merge of a helper's return values
+		for _, vals := range errFieldVals {
+			for _, v := range vals {
+				for _, o := range origins(v) {
+					if o == errv {
+						stored = true
+					}
+				}
+			}
+		}
 		if !stored {
 			return false, "the error is never tested against nil nor stored into the result"
 		}
